@@ -15,21 +15,9 @@ BASE = f"{SESSION_MOD}.LDAPSession"
 IBUF = "_incoming_buffer"
 
 
-def check(model: Model, run: Run) -> None:
-    ex = extraction(model)
-    mr = may_raise(model)
-    run.explanation = ("the property follows by induction over chunks from lemmas that are statements about code shape, each decided here: "
-                       "L1 a reader advances only after its validating helper returned, L2 by exactly header+content with no silent clamping, "
-                       "L3 residue discipline of receive on every path (reader built over residue++data or data; residue := copy of the remainder), "
-                       "L4 messages appended in decode order and processed by a loop that does not touch the list, L5 values handed out are copies. "
-                       "The induction itself and equality of the resulting state when a batch contains an error are on paper, not decided")
-    common_coverage(ex, run)
-    fi = model.find_method(BASE, "receive")
-    if fi is None:
-        raise AnalysisError("LDAPSession.receive not found")
-    lemma_no_consume_on_failure(model, run, "C02")
-    lemma_no_silent_clamp(model, run, mr)
-    lemma_reader_truth(model, run)
+def residue_discipline(model: Model, run: Run, ex, fi) -> None:
+    """L3: on every path of receive the reader is built over residue++data (or over data when nothing is pending) and the
+    residue becomes a copy of what the reader did not consume; nothing else writes, resizes or looks at the pending bytes"""
     # ---- L3 residue discipline (Engine D paths of the base receive) ---------------
     n_paths = 0
     for p in ex.paths[BASE]:
@@ -117,6 +105,24 @@ def check(model: Model, run: Run) -> None:
                     run.fail(Finding("L3-residue-readers", fq, norm(n), f"{fq.split('sansldap.')[-1]} reads the pending-bytes buffer: its behaviour then depends on how the stream was chunked, "
                                      "not on what the peer sent", model.loc(f2.module, n)))
     run.floor("incoming buffer reads", n_readers, 2)
+
+
+def check(model: Model, run: Run) -> None:
+    ex = extraction(model)
+    mr = may_raise(model)
+    run.explanation = ("the property follows by induction over chunks from lemmas that are statements about code shape, each decided here: "
+                       "L1 a reader advances only after its validating helper returned, L2 by exactly header+content with no silent clamping, "
+                       "L3 residue discipline of receive on every path (reader built over residue++data or data; residue := copy of the remainder), "
+                       "L4 messages appended in decode order and processed by a loop that does not touch the list, L5 values handed out are copies. "
+                       "The induction itself and equality of the resulting state when a batch contains an error are on paper, not decided")
+    common_coverage(ex, run)
+    fi = model.find_method(BASE, "receive")
+    if fi is None:
+        raise AnalysisError("LDAPSession.receive not found")
+    lemma_no_consume_on_failure(model, run, "C02")
+    lemma_no_silent_clamp(model, run, mr)
+    lemma_reader_truth(model, run)
+    residue_discipline(model, run, ex, fi)
     # ---- early returns (shared with C06 Q4)
     body = fi.node.body
     final = body[-1] if body and isinstance(body[-1], ast.Return) else None
